@@ -148,9 +148,9 @@ for (a, b, h) in ((1, 1, 2), (1, 2, 1), (2, 1, 3), (2, 2, 3), (1, 4, 3), (4, 1, 
 for (a, b, h) in ((3, 3, 2), (2, 4, 3), (1, 6, 3), (3, 2, 4)):
     REGISTRY.setdefault(P, []).append(HarnessInstance(P, _c04.watershed, dict(nk=a, nth=b, ihmax=h), ("thorough",), dict(max_paths=200000, time_budget_thorough=3300, hard_timeout_thorough=3600, witnesses=3)))
 for (a, b) in (((2, 3), (3, 2)), ((1, 4), (2, 2)), ((2, 2), (1, 4)), ((2, 2), (2, 3))):
-    REGISTRY.setdefault(P, []).append(HarnessInstance(P, _c04.consecutive_calls, dict(first=a, second=b, ihmax=2), ("quick", "thorough"), dict(max_paths=20000, time_budget=420, hard_timeout=800)))
+    REGISTRY.setdefault(P, []).append(HarnessInstance(P, _c04.consecutive_calls, dict(first=a, second=b, ihmax=2), ("quick", "thorough"), dict(max_paths=20000, time_budget=240, hard_timeout=500)))
 for (a, m, b) in (((1, 4), (4, 1), (2, 3)), ((1, 3), (3, 1), (3, 3)), ((3, 1), (1, 4), (3, 2))):
-    REGISTRY.setdefault(P, []).append(HarnessInstance(P, _c04.consecutive_calls, dict(first=a, mid=m, second=b, ihmax=2), ("quick", "thorough"), dict(max_paths=20000, time_budget=420, hard_timeout=800)))
+    REGISTRY.setdefault(P, []).append(HarnessInstance(P, _c04.consecutive_calls, dict(first=a, mid=m, second=b, ihmax=2), ("quick", "thorough"), dict(max_paths=20000, time_budget=240, hard_timeout=500)))
 for (a, b, h) in ((1, 1, 1), (2, 2, 1), (3, 4, 3)):
     REGISTRY.setdefault(P, []).append(HarnessInstance(P, _c04.constant, dict(nk=a, nth=b, ihmax=h), ("quick", "thorough"), {}))
 
